@@ -38,6 +38,24 @@ theorem Took.spanOk {txt : Bytes} {s s' : Stream} {run : Bytes} (hs : SOk txt s)
   have := spanOk_take hs run.length h.1
   rw [← h.2.2.2] at this; exact this
 
+/-- a slice that is a string of its own: valid UTF-8 between two character boundaries (what a
+`&str` cut from the input is) -/
+def SpanU (txt : Bytes) (sp : Span) : Prop :=
+  SpanOk txt sp ∧ ValidUtf8 sp.bytes ∧ isCharBoundary txt sp.off = true ∧
+  isCharBoundary txt (sp.off + sp.bytes.length) = true
+
+theorem Took.spanU {txt : Bytes} {s s' : Stream} {run : Bytes} (hs : SOk txt s) (hs' : SOk txt s')
+    (h : Took s s' run) : SpanU txt ⟨s.pos, run⟩ := by
+  refine ⟨h.spanOk hs, ?_, hs.pos_boundary.2, ?_⟩
+  · have hv := valid_prefix s.rest run.length hs.utf8 (by rw [← h.2.2.1]; exact hs'.utf8)
+    rw [← h.2.2.2] at hv; exact hv
+  · show isCharBoundary txt (s.pos + run.length) = true
+    rw [← h.2.1]; exact hs'.pos_boundary.2
+
+/-- A cursor placed on such a slice is well-formed. -/
+theorem SpanU.sOk {txt : Bytes} {sp : Span} (h : SpanU txt sp) : SOk txt ⟨sp.off, sp.bytes⟩ :=
+  ⟨h.1.1, h.1.2, h.2.1, h.2.2.2⟩
+
 theorem Took.trans {a b c : Stream} {r1 r2 : Bytes} (h1 : Took a b r1) (h2 : Took b c r2) :
     Took a c (r1 ++ r2) := by
   obtain ⟨l1, p1, d1, t1⟩ := h1
